@@ -12,7 +12,12 @@ Inductive case :=
 (* a merge of fetched single-entry logs, in the observed join order *)
 | CMerge (univ : list entry) (before : olog) (batch : list N) (after : olog)
 (* two replicas at rest: entry sets, listings, heads, views (kind: 0 eventlog, 1 kv, 2 doc) *)
-| CConv (univ : list entry) (a b : olog) (vals_a vals_b heads_a heads_b : list N) (view_a view_b : kvmap).
+| CConv (univ : list entry) (a b : olog) (vals_a vals_b heads_a heads_b : list N) (view_a view_b : kvmap)
+(* the load-from-disk route on a replica that writes AND replicates: entry set at rest before
+   Close and after reopen + Load(-1).  Model: [Load] joins the logs fetched from the cached
+   local and remote heads, which cover the whole log (C05_durable: nothing acknowledged or
+   replicated is lost), so the route delivers exactly the entries held before *)
+| CReload (before after : list N).
 
 Definition to_log (univ : list entry) (id : N) (l : olog) : log :=
   mkLog id (resolve univ (o_ents l)) (resolve univ (o_heads l)) (o_next l) (o_clock l).
@@ -59,6 +64,7 @@ Definition check (c : case) : bool * bool :=
      if setN_eqb (o_ents a) (o_ents b)
      then listN_eqb va vb && listN_eqb ha hb && kvmap_eqb wa wb
      else true)
+  | CReload before after => (setN_eqb before after, true)
   end.
 
 Definition failures (base : nat) (cs : list case) := failures_from check base cs.
